@@ -10,9 +10,16 @@ import (
 func InitGenesis(ctx sdk.Context, k keeper.Keeper, state *types.GenesisState) {
 	k.SetParams(ctx, state.Params)
 
+	var lockerID uint64
 	for _, item := range state.Lockers {
+		if item.LockerId > lockerID {
+			lockerID = item.LockerId
+		}
 		k.SetLocker(ctx, item)
 	}
+	// the id counter is not part of the genesis state: restore it from the lockers (as the vault module does), so
+	// that the next locker does not reuse the id of an existing one
+	k.SetIDForLocker(ctx, lockerID)
 
 	for _, item := range state.LockerProductAssetMapping {
 		k.SetLockerProductAssetMapping(ctx, item)
